@@ -125,6 +125,16 @@ CHECKS.update({
             "DESIGN.md section 4, C17"),
 })
 
+CHECKS.update({
+    "C18": ("exhaustive enumeration of the device database with synthesised model strings; permutation differential on vendor registration; load + determinism of rulebooks",
+            "Every one of the 168 devdb sequences (model strings synthesised from the regex chain, 3 each, x 5 software shapes) and every "
+            "vendor's canonical hardware: hierarchical truth, one vendor under all 14 rotations (and random permutations) of the "
+            "registration order equal to the most specific one, rulebooks load with all logic functions resolved, and two fresh providers "
+            "agree structurally. Exhaustive over the devdb; permutations sampled.",
+            "Trusted: vf/model/regexsample.py only as a generator (every sample is re-validated with re.search).",
+            "DESIGN.md section 4, C18"),
+})
+
 NOT_YET = {}
 
 
